@@ -407,7 +407,7 @@ MUST_REACH = [
     'debian.deb822:RestrictedWrapper.dump',
 ]
 
-DOCS = {'quick': 8400, 'thorough': 560000}
+DOCS = {'quick': 8400, 'thorough': 540000}
 CODEC = {'quick': 200000, 'thorough': 11200000}
 LICENSES = {'quick': 30000, 'thorough': 1400000}
 FACTORY = {'quick': 1600, 'thorough': 80000}
@@ -418,7 +418,7 @@ LISTS = {'quick': 20000, 'thorough': 1000000}
 # round-9 extension (non-normalised Unicode, odd continuation markers): totals per tier
 UNIDOCS = {'quick': 640, 'thorough': 42000}
 # round-10 extension (refused assignments, repeated patterns): seeded documents per tier (+ the fixed grid in every run)
-REFUSEDOCS = {'quick': 800, 'thorough': 56000}
+REFUSEDOCS = {'quick': 800, 'thorough': 42000}
 RAWDOCS = {'quick': 720, 'thorough': 56000}
 ULISTS = {'quick': 1600, 'thorough': 84000}
 UCODEC = {'quick': 6000, 'thorough': 420000}
@@ -848,6 +848,9 @@ FLOORS = {
 # refuse:enumerated is floored at its exact size (every refused value x every stage).  No floor on a per-cell counter
 # refuse:<class>.<property>:<value> / repeat:assigned-late:* whose minimum was below 60 (the grid carries them), none on
 # refuse:recorded:* (whether an assignment raised is recorded, not judged).
+# Thorough: measured with 56000 seeded refusal documents, then REFUSEDOCS thorough was set to 42000 (and DOCS thorough
+# 560000 -> 540000) to keep the tier inside its time budget; the thorough floors below are 37.5% of the measured values
+# (= 50% of three quarters), every per-cell counter included (all were above 60).
 _R10_FLOORS = {
     'quick': {'monitors': {'M.refuse': 1400, 'M.refuse-value': 13000},
         'counters': {
@@ -888,8 +891,119 @@ _R10_FLOORS = {
                      'repeat:assigned:repeated-pattern-apart': 130, 'repeat:create:all-patterns-equal': 120,
                      'repeat:create:pattern-three-times-or-more': 150, 'repeat:create:repeated-pattern': 1700,
                      'repeat:create:repeated-pattern-adjacent': 670, 'repeat:create:repeated-pattern-apart': 1200}},
-    'thorough': {'monitors': {},
-        'counters': {}},
+    'thorough': {'monitors': {'M.refuse': 54000, 'M.refuse-value': 460000},
+        'counters': {
+                     'refuse:F.[]:item-del': 1200, 'refuse:F.[]:item-set': 1200, 'refuse:F.comment:int': 190,
+                     'refuse:F.comment:list-instead-of-str': 200, 'refuse:F.comment:raw-ends-in-newline': 650,
+                     'refuse:F.comment:raw-unindented-continuation': 610, 'refuse:F.comment:raw-with-empty-line': 620,
+                     'refuse:F.comment:tuple-instead-of-str': 200, 'refuse:F.copyright:int': 190,
+                     'refuse:F.copyright:list-instead-of-str': 180, 'refuse:F.copyright:none': 190,
+                     'refuse:F.copyright:raw-ends-in-newline': 600,
+                     'refuse:F.copyright:raw-unindented-continuation': 590,
+                     'refuse:F.copyright:raw-with-empty-line': 580, 'refuse:F.copyright:tuple-instead-of-str': 190,
+                     'refuse:F.files:blank-only-entry': 370, 'refuse:F.files:blank-only-entry-after-valid-entries': 600,
+                     'refuse:F.files:empty-entry': 540, 'refuse:F.files:empty-entry-after-valid-entries': 790,
+                     'refuse:F.files:empty-iter': 190, 'refuse:F.files:empty-list': 190,
+                     'refuse:F.files:empty-str': 190, 'refuse:F.files:empty-tuple': 190,
+                     'refuse:F.files:entry-with-blank': 910,
+                     'refuse:F.files:entry-with-blank-after-valid-entries': 1200,
+                     'refuse:F.files:entry-with-newline': 370,
+                     'refuse:F.files:entry-with-newline-after-valid-entries': 420, 'refuse:F.files:int': 170,
+                     'refuse:F.files:int-entry': 190, 'refuse:F.files:none': 210, 'refuse:F.files:none-entry': 400,
+                     'refuse:F.files:str-instead-of-list': 400, 'refuse:F.license:int': 360,
+                     'refuse:F.license:list-instead-of-license': 350, 'refuse:F.license:none': 360,
+                     'refuse:F.license:pair-instead-of-license': 360, 'refuse:F.license:str-instead-of-license': 700,
+                     'refuse:F.license:tuple-instead-of-license': 360, 'refuse:H.[]:item-del': 860,
+                     'refuse:H.[]:item-set': 850, 'refuse:H.comment:int': 140,
+                     'refuse:H.comment:list-instead-of-str': 140, 'refuse:H.comment:raw-ends-in-newline': 430,
+                     'refuse:H.comment:raw-unindented-continuation': 450, 'refuse:H.comment:raw-with-empty-line': 430,
+                     'refuse:H.comment:tuple-instead-of-str': 140, 'refuse:H.copyright:int': 150,
+                     'refuse:H.copyright:list-instead-of-str': 130, 'refuse:H.copyright:raw-ends-in-newline': 430,
+                     'refuse:H.copyright:raw-unindented-continuation': 440,
+                     'refuse:H.copyright:raw-with-empty-line': 420, 'refuse:H.copyright:tuple-instead-of-str': 140,
+                     'refuse:H.disclaimer:int': 140, 'refuse:H.disclaimer:list-instead-of-str': 130,
+                     'refuse:H.disclaimer:raw-ends-in-newline': 420,
+                     'refuse:H.disclaimer:raw-unindented-continuation': 450,
+                     'refuse:H.disclaimer:raw-with-empty-line': 430, 'refuse:H.disclaimer:tuple-instead-of-str': 120,
+                     'refuse:H.files_excluded:blank-only-entry': 190,
+                     'refuse:H.files_excluded:blank-only-entry-after-valid-entries': 270,
+                     'refuse:H.files_excluded:empty-entry': 220,
+                     'refuse:H.files_excluded:empty-entry-after-valid-entries': 240,
+                     'refuse:H.files_excluded:entry-with-newline': 110,
+                     'refuse:H.files_excluded:entry-with-newline-after-valid-entries': 180,
+                     'refuse:H.files_excluded:int': 83, 'refuse:H.files_excluded:int-entry': 74,
+                     'refuse:H.files_excluded:none-entry': 160, 'refuse:H.files_excluded:str-instead-of-list': 150,
+                     'refuse:H.files_included:blank-only-entry': 190,
+                     'refuse:H.files_included:blank-only-entry-after-valid-entries': 280,
+                     'refuse:H.files_included:empty-entry': 210,
+                     'refuse:H.files_included:empty-entry-after-valid-entries': 270,
+                     'refuse:H.files_included:entry-with-newline': 130,
+                     'refuse:H.files_included:entry-with-newline-after-valid-entries': 190,
+                     'refuse:H.files_included:int': 85, 'refuse:H.files_included:int-entry': 90,
+                     'refuse:H.files_included:none-entry': 160, 'refuse:H.files_included:str-instead-of-list': 160,
+                     'refuse:H.format:int': 690, 'refuse:H.format:multi-line-str': 2100, 'refuse:H.format:none': 690,
+                     'refuse:H.license:int': 280, 'refuse:H.license:list-instead-of-license': 290,
+                     'refuse:H.license:pair-instead-of-license': 320, 'refuse:H.license:str-instead-of-license': 590,
+                     'refuse:H.license:tuple-instead-of-license': 280, 'refuse:H.source:int': 140,
+                     'refuse:H.source:list-instead-of-str': 130, 'refuse:H.source:raw-ends-in-newline': 440,
+                     'refuse:H.source:raw-unindented-continuation': 450, 'refuse:H.source:raw-with-empty-line': 420,
+                     'refuse:H.source:tuple-instead-of-str': 140, 'refuse:H.upstream_contact:blank-only-entry': 180,
+                     'refuse:H.upstream_contact:blank-only-entry-after-valid-entries': 280,
+                     'refuse:H.upstream_contact:empty-entry': 220,
+                     'refuse:H.upstream_contact:empty-entry-after-valid-entries': 250,
+                     'refuse:H.upstream_contact:entry-with-newline': 130,
+                     'refuse:H.upstream_contact:entry-with-newline-after-valid-entries': 180,
+                     'refuse:H.upstream_contact:int': 84, 'refuse:H.upstream_contact:int-entry': 78,
+                     'refuse:H.upstream_contact:none-entry': 140, 'refuse:H.upstream_contact:str-instead-of-list': 160,
+                     'refuse:H.upstream_name:int': 320, 'refuse:H.upstream_name:multi-line-str': 1300,
+                     'refuse:L.[]:item-del': 1900, 'refuse:L.[]:item-set': 1900, 'refuse:L.comment:int': 320,
+                     'refuse:L.comment:list-instead-of-str': 330, 'refuse:L.comment:raw-ends-in-newline': 980,
+                     'refuse:L.comment:raw-unindented-continuation': 1000, 'refuse:L.comment:raw-with-empty-line': 980,
+                     'refuse:L.comment:tuple-instead-of-str': 320, 'refuse:L.license:int': 1100,
+                     'refuse:L.license:list-instead-of-license': 1100, 'refuse:L.license:none': 1100,
+                     'refuse:L.license:pair-instead-of-license': 1000, 'refuse:L.license:str-instead-of-license': 2200,
+                     'refuse:L.license:tuple-instead-of-license': 1100,
+                     'refuse:document-dumped-before-and-after': 11000, 'refuse:documents': 21000,
+                     'refuse:enumerated': 796, 'refuse:property:F.[]': 2500, 'refuse:property:F.comment': 2500,
+                     'refuse:property:F.copyright': 2500, 'refuse:property:F.files': 7400,
+                     'refuse:property:F.license': 2500, 'refuse:property:H.[]': 1700, 'refuse:property:H.comment': 1700,
+                     'refuse:property:H.copyright': 1700, 'refuse:property:H.disclaimer': 1700,
+                     'refuse:property:H.files_excluded': 1700, 'refuse:property:H.files_included': 1800,
+                     'refuse:property:H.format': 3500, 'refuse:property:H.license': 1700,
+                     'refuse:property:H.source': 1700, 'refuse:property:H.upstream_contact': 1700,
+                     'refuse:property:H.upstream_name': 1700, 'refuse:property:L.[]': 3800,
+                     'refuse:property:L.comment': 3900, 'refuse:property:L.license': 7700,
+                     'refuse:raised:AttributeError': 15000, 'refuse:raised:MachineReadableFormatError': 13000,
+                     'refuse:raised:RestrictedFieldError': 8100, 'refuse:raised:TypeError': 5400,
+                     'refuse:raised:ValueError': 11000, 'refuse:stage:added': 8200, 'refuse:stage:between': 15000,
+                     'refuse:stage:free': 15000, 'refuse:stage:late': 15000,
+                     'refuse:target:added-files-paragraph': 12000, 'refuse:target:added-license-paragraph': 10000,
+                     'refuse:target:decoy-files-paragraph': 1400, 'refuse:target:decoy-license-paragraph': 1300,
+                     'refuse:target:free-files-paragraph': 4000, 'refuse:target:free-header': 1600,
+                     'refuse:target:free-license-paragraph': 3500, 'refuse:target:header-of-document': 19000,
+                     'refuse:value:blank-only-entry': 950, 'refuse:value:blank-only-entry-after-valid-entries': 1400,
+                     'refuse:value:empty-entry': 1200, 'refuse:value:empty-entry-after-valid-entries': 1500,
+                     'refuse:value:empty-iter': 190, 'refuse:value:empty-list': 190, 'refuse:value:empty-str': 190,
+                     'refuse:value:empty-tuple': 190, 'refuse:value:entry-with-blank': 910,
+                     'refuse:value:entry-with-blank-after-valid-entries': 1200, 'refuse:value:entry-with-newline': 760,
+                     'refuse:value:entry-with-newline-after-valid-entries': 980, 'refuse:value:int': 4500,
+                     'refuse:value:int-entry': 440, 'refuse:value:item-del': 4000, 'refuse:value:item-set': 4000,
+                     'refuse:value:list-instead-of-license': 1700, 'refuse:value:list-instead-of-str': 1200,
+                     'refuse:value:multi-line-str': 3500, 'refuse:value:none': 2500, 'refuse:value:none-entry': 870,
+                     'refuse:value:pair-instead-of-license': 1700, 'refuse:value:raw-ends-in-newline': 3900,
+                     'refuse:value:raw-unindented-continuation': 4000, 'refuse:value:raw-with-empty-line': 3900,
+                     'refuse:value:str-instead-of-license': 3500, 'refuse:value:str-instead-of-list': 880,
+                     'refuse:value:tuple-instead-of-license': 1700, 'refuse:value:tuple-instead-of-str': 1200,
+                     'repeat:assigned-late:all-patterns-equal': 140,
+                     'repeat:assigned-late:pattern-three-times-or-more': 100,
+                     'repeat:assigned-late:repeated-pattern': 670,
+                     'repeat:assigned-late:repeated-pattern-adjacent': 400,
+                     'repeat:assigned-late:repeated-pattern-apart': 320, 'repeat:assigned:all-patterns-equal': 2300,
+                     'repeat:assigned:pattern-three-times-or-more': 2200, 'repeat:assigned:repeated-pattern': 12000,
+                     'repeat:assigned:repeated-pattern-adjacent': 7600, 'repeat:assigned:repeated-pattern-apart': 7100,
+                     'repeat:create:all-patterns-equal': 6300, 'repeat:create:pattern-three-times-or-more': 7700,
+                     'repeat:create:repeated-pattern': 66000, 'repeat:create:repeated-pattern-adjacent': 34000,
+                     'repeat:create:repeated-pattern-apart': 42000}},
 }
 for _tier in _R10_FLOORS:
     FLOORS[_tier]['monitors'].update(_R10_FLOORS[_tier]['monitors'])
